@@ -91,6 +91,18 @@ CHECKS = {
         "known per-dialect findings matched exactly from pins/C09.json.",
         "DESIGN.md section 5 C09",
     ),
+    "C14": (
+        "vmc/c14.py (E1 + E6 generator, re-rendering with qualification; separate interpreters for import-time environment)",
+        "exploration",
+        "exhaustive product of generated statements and special creation paths x default schema x mechanism; differential oracle against the explicitly qualified re-rendering",
+        "Every C01/C02 generator case within 1 (quick) / 2 (thorough) deviations plus 30 special table-creation paths (vertica swap-partition, LIKE/CLONE, "
+        "SELECT INTO, DROP/RENAME, EXCHANGE PARTITION, INSERT OVERWRITE, MERGE, UPDATE FROM/JOIN, COPY, correlated select-list subqueries, two-statement "
+        "scripts, the legacy analyzer) x 4 default-schema values (unset, fresh, one already used as qualifier, mixed case) x 3 mechanisms (scoped override, "
+        "environment after import, environment before import in a separate interpreter) is analysed twice: with the default, and with no default on the AST "
+        "re-rendered with every unqualified table written S.name; tables, column pairs, full paths and both exports must be equal.",
+        "Trusted: nothing but the renderer's notion of a table position; differential, so defects common to both sides are C01/C02's business.",
+        "DESIGN.md section 5 C14",
+    ),
 }
 
 NOT_YET = "check not built yet in this revision (planned in DESIGN.md section 5/11); not claimed"
